@@ -69,7 +69,7 @@ func ttmlTime(s string) (int64, bool) {
 // parseTTML walks a TTML document: region ids defined in head/layout, every <p> with begin/end, its text
 // (<br/> as newline) and the region it references (own attribute or inherited from div/body), and the set of
 // region references found on body/div/p.
-func parseTTML(doc []byte) (cues []rawCue, regdefs []string, regrefs []string, err error) {
+func parseTTML(doc []byte) (cues []rawCue, regdefs []string, regrefs []string, doclang string, err error) {
 	dec := xml.NewDecoder(bytes.NewReader(doc))
 	type frame struct {
 		name string
@@ -95,7 +95,7 @@ func parseTTML(doc []byte) (cues []rawCue, regdefs []string, regrefs []string, e
 			if e.Error() == "EOF" {
 				break
 			}
-			return nil, nil, nil, fmt.Errorf("ttml: %w", e)
+			return nil, nil, nil, "", fmt.Errorf("ttml: %w", e)
 		}
 		switch t := tok.(type) {
 		case xml.StartElement:
@@ -103,6 +103,14 @@ func parseTTML(doc []byte) (cues []rawCue, regdefs []string, regrefs []string, e
 			inh := ""
 			if len(stack) > 0 {
 				inh = stack[len(stack)-1].reg
+			}
+			if name == "tt" && len(stack) == 0 {
+				doclang = "(none)"
+				for _, a := range t.Attr {
+					if a.Name.Local == "lang" && (a.Name.Space == "xml" || a.Name.Space == "http://www.w3.org/XML/1998/namespace") {
+						doclang = a.Value
+					}
+				}
 			}
 			switch name {
 			case "region":
@@ -154,7 +162,7 @@ func parseTTML(doc []byte) (cues []rawCue, regdefs []string, regrefs []string, e
 		regrefs = append(regrefs, r)
 	}
 	sort.Strings(regrefs)
-	return cues, regdefs, regrefs, nil
+	return cues, regdefs, regrefs, doclang, nil
 }
 
 // wvtt sample: kind "c" (exactly one vttc box), "e" (exactly one vtte box), "x" (anything else).
@@ -262,7 +270,7 @@ func parseSeg(data []byte, trex *mp4.TrexBox) (*segObs, error) {
 }
 
 var stampRe = regexp.MustCompile(`\d{4}-\d{2}-\d{2}T\d{2}:\d{2}:\d{2}(?:\.\d+)?(?:Z|[+-]\d{2}:\d{2})`)
-var wordRe = regexp.MustCompile(`[0-9A-Za-z_]+`)
+var wordRe = regexp.MustCompile(`[0-9A-Za-z_]+(?:-[0-9A-Za-z]+)*`) // a BCP-47 tag (pt-BR, en-GB-oxendict) is one word
 var digitsRe = regexp.MustCompile(`^\d{1,18}$`)
 
 // textObs projects a cue text: RFC 3339 stamps (count, epoch second of the first), remaining words, remaining numbers.
@@ -329,6 +337,7 @@ type tplObs struct {
 	ts                int64
 	snr               string
 	media             string // raw template
+	init              string // raw template
 	timeline          bool
 	dur               int64
 	t, d              []int64
@@ -359,6 +368,7 @@ func stObs(st *xST) (tplObs, error) {
 		o.dur = *st.Duration
 	}
 	o.media = st.Media
+	o.init = st.Init
 	if st.TL != nil {
 		o.timeline = true
 		t := int64(0)
